@@ -135,9 +135,10 @@ func genC16(tier string, seed int64) (*Family, error) {
 	type op struct{ id, code string }
 	ops := []op{
 		{"full", "\tq := vnd.Int64(\"q\")\n\tzzMust(gp.UpdatePooledRules(zzRule(\"b\", 2, vnd.SalText(q))+zzRule(\"x\", 2, \"1\")), \"full update\")\n\tspec = map[string]zzSpec{\"b\": {2, q, \"db\"}, \"x\": {2, 1, \"dx\"}}\n"},
-		{"incr_new", "\tq := vnd.Int64(\"q\")\n\tzzMust(gp.UpdatePooledRulesIncremental(zzRule(\"x\", 2, vnd.SalText(q))), \"incremental update\")\n\tspec[\"x\"] = zzSpec{2, q, \"dx\"}\n"},
+		{"incr_new", "\tq := vnd.Int64(\"q\")\n\tvnd.ExploreMapOrder(true)\n\tzzMust(gp.UpdatePooledRulesIncremental(zzRule(\"x\", 2, vnd.SalText(q))), \"incremental update\")\n\tvnd.ExploreMapOrder(false)\n\tspec[\"x\"] = zzSpec{2, q, \"dx\"}\n"},
 		{"incr_existing", "\tq := vnd.Int64(\"q\")\n\tzzMust(gp.UpdatePooledRulesIncremental(zzRule(\"a\", 2, vnd.SalText(q))), \"incremental update\")\n\tspec[\"a\"] = zzSpec{2, q, \"da\"}\n"},
-		{"incr_both", "\tq := vnd.Int64(\"q\")\n\tzzMust(gp.UpdatePooledRulesIncremental(zzRule(\"a\", 2, vnd.SalText(q))+zzRule(\"x\", 2, \"6\")), \"incremental update\")\n\tspec[\"a\"] = zzSpec{2, q, \"da\"}\n\tspec[\"x\"] = zzSpec{2, 6, \"dx\"}\n"},
+		{"incr_both", "\tq := vnd.Int64(\"q\")\n\tvnd.ExploreMapOrder(true)\n\tzzMust(gp.UpdatePooledRulesIncremental(zzRule(\"a\", 2, vnd.SalText(q))+zzRule(\"x\", 2, \"6\")), \"incremental update\")\n\tvnd.ExploreMapOrder(false)\n\tspec[\"a\"] = zzSpec{2, q, \"da\"}\n\tspec[\"x\"] = zzSpec{2, 6, \"dx\"}\n"},
+		{"incr_batch3", "\tq := vnd.Int64(\"q\")\n\tvnd.ExploreMapOrder(true)\n\tzzMust(gp.UpdatePooledRulesIncremental(zzRule(\"x\", 2, \"6\")+zzRule(\"b\", 2, vnd.SalText(q))+zzRule(\"zz\", 2, \"-3\")), \"incremental update\")\n\tvnd.ExploreMapOrder(false)\n\tspec[\"x\"] = zzSpec{2, 6, \"dx\"}\n\tspec[\"b\"] = zzSpec{2, q, \"db\"}\n\tspec[\"zz\"] = zzSpec{2, -3, \"dzz\"}\n"},
 		{"incr_b", "\tq := vnd.Int64(\"q\")\n\tzzMust(gp.UpdatePooledRulesIncremental(zzRule(\"b\", 2, vnd.SalText(q))), \"incremental update\")\n\tspec[\"b\"] = zzSpec{2, q, \"db\"}\n"},
 		{"remove_a", "\terr := gp.RemoveRules([]string{\"a\"})\n\tif len(spec) > 0 {\n\t\tvnd.Assert(err == nil, \"removal succeeds\")\n\t}\n\tdelete(spec, \"a\")\n"},
 		{"remove_absent", "\t_ = gp.RemoveRules([]string{\"zz\"})\n"},
@@ -149,6 +150,13 @@ func genC16(tier string, seed int64) (*Family, error) {
 	}
 	for si, sh := range shapes {
 		for _, o := range ops {
+			heavy := sh == "incremented" || sh == "moved" || sh == "moved3"
+			if o.id == "incr_batch3" && (sh == "moved3" || (heavy && tier != "thorough")) {
+				continue // three more rules over a three-rule pre-state with explored merge orders: > 10 min
+			}
+			if o.id == "incr_both" && (sh == "moved3" || sh == "incremented") && tier != "thorough" {
+				o.code = strings.ReplaceAll(strings.ReplaceAll(o.code, "\tvnd.ExploreMapOrder(true)\n", ""), "\tvnd.ExploreMapOrder(false)\n", "")
+			}
 			name := fmt.Sprintf("S_%s_%s", sh, o.id)
 			modelCheck := "\tzzCheckPool(gp, spec, model)\n"
 			if o.id == "setmodel" {
